@@ -28,7 +28,7 @@ from .. import core
 from ..core import fbits, unfbits
 
 RULE = ("seeded sampling intervals 10^U(-3,1) s (plus dyadic steps) x four filter types x cut-offs log-uniform in "
-        "[lo, 0.97] Nyquist (lo = 0.02 quick, 0.005 thorough; band width >= lo) x test frequency (30 % exactly a cut-off, 40 % "
+        "[lo, 0.97] Nyquist (lo = 0.02 quick, 0.008 thorough; band width >= lo) x test frequency (30 % exactly a cut-off, 40 % "
         "within a factor 2 of one, 30 % anywhere in (0.01, 0.985) Nyquist) x amplitude, phase, mean; record length "
         "300 / min(edge, band width, distance to Nyquist) samples, at least 2000; fixed corner cases first (cut-off = half "
         "Nyquist, band centre, edges at 0.02 / 0.97 Nyquist, dt 1e-3 and 10); TimeSeries level: plain, time window, resample "
@@ -284,8 +284,11 @@ def extra_clauses(case, rng_vals):
         return [(O_RETURNS, "array", e1 or e2 or e3)]
     sc = (abs(a) * (A + abs(mean)) + abs(b) * 1.25)
     d = float(np.max(np.abs(fz - (a * fx + b * fy))))
-    if d > 1e-8 * sc:
-        fails.append((O_LIN, "max |F(a x + b y) - a F(x) - b F(y)| <= %g" % (1e-8 * sc), d))
+    # rounding: second-order sections ~1e-12; (b, a) form of order 5 loses ~3e-18 / Wn^5 (measured), mirrored at Nyquist
+    wn = fcs[0] * 2.0 * dt
+    lin_tol = max(1e-10, 1e-16 / min(wn, 1.0 - wn) ** 5) if kind in ("lp", "hp") else 1e-10
+    if d > lin_tol * sc:
+        fails.append((O_LIN, "max |F(a x + b y) - a F(x) - b F(y)| <= %g" % (lin_tol * sc), d))
     const = np.full(n, mean)
     fc_, e4 = call(fn, const, dt, *fcs)
     if e4:
@@ -493,14 +496,15 @@ def run(chk):
         "%d / min(edge, band width) samples; end transients are excluded" % KLEN,
         "non-equidistant series: the comparison includes the linear interpolation error of the sampled sinusoid (f dt <= 0.01), "
         "tolerance %g" % TOL_IRR,
-        "cut-offs below 0.005 Nyquist (order-5 transfer-function form becomes ill-conditioned, records of > 80000 samples "
-        "needed) are outside the sampled range",
+        "cut-offs below 0.008 Nyquist are outside the sampled range: the order-5 transfer-function (b, a) form used for low- and "
+        "high-pass is ill-conditioned there (rounding noise ~ 3e-18 / Wn^5 of the amplitude, measured) and very long records "
+        "are needed; the linearity tolerance follows that law with a factor 30",
     ]
     chk.partial += ["that scipy's butter + filtfilt / sosfiltfilt realise `responseOf` (squared Butterworth magnitude, zero "
                     "phase) in steady state is measured, not proved; end transients are not modelled"]
     rng = chk.rng
     drv = core.Driver()
-    lo = 0.02 if chk.quick else 0.005
+    lo = 0.02 if chk.quick else 0.008
     n_sig = 240 if chk.quick else 5000
     n_extra = 40 if chk.quick else 500
     n_ts = dict(plain=8, window=8, step=10, **{"window+step": 8}, array=8, taper=6, irregular=5) if chk.quick else \
